@@ -58,11 +58,21 @@ func VerifC13Policy() {
 			verifAssume(!(decls[j].method == decls[i].method && decls[j].url() == decls[i].url()))
 		}
 	}
+	slash := make([]bool, n)
+	if verifParam("slash", 0) == 1 {
+		for i := range slash {
+			slash[i] = len(decls[i].pat) > 0 && decls[i].pat[len(decls[i].pat)-1] != "*" && verifBool(fmt.Sprintf("d%d_slash", i))
+		}
+	}
 	build := func(rot int) (*config.EndpointPolicyTree, error) {
 		var eps []sharedConfig.EndpointConfig
 		for k := 0; k < n; k++ {
 			d := decls[(k+rot)%n]
-			eps = append(eps, sharedConfig.EndpointConfig{URL: d.url(), Method: d.method,
+			u := d.url()
+			if slash[(k+rot)%n] {
+				u += "/" // the same endpoint written with a trailing slash
+			}
+			eps = append(eps, sharedConfig.EndpointConfig{URL: u, Method: d.method,
 				Remedies:  []sharedConfig.Remedy{{Enabled: true, Name: d.name}},
 				Diagnosis: []sharedConfig.Diagnosis{{Enabled: true, Name: "D" + d.name}}})
 		}
